@@ -96,8 +96,10 @@ m("c11-cidar-cassette-vector-one-N", ["C11", "C04"], "moclo-cidar/moclo/kits/cid
             "N"
             "(NNNN)"  # Downstream overhang
             "(N"''')
-m("c12-vector-upstream-not-reverse-complemented", ["C12", "C02"], VEC,
-  "        upstream = str(Seq(downstream).reverse_complement())", "        upstream = str(Seq(downstream).complement())[::1]")
+m("c12-module-screen-counts-forward-sites-only", ["C12", "C04"], MOD,
+  "        if len(self.cutter.catalyse(_match.group(0).seq)) > 3:\n            raise errors.IllegalSite(self.seq)\n        return _match\n\n\nclass Product",
+  "        if str(_match.group(0).seq).upper().count(self.cutter.site) > 1:\n            raise errors.IllegalSite(self.seq)\n        return _match\n\n\nclass Product",
+  note="extra reverse-orientation site inside a module target is no longer rejected (forward one still is)")
 m("c13-no-modulo", ["C13"], REC,
   "        index %= len(self.seq)  # avoid unnecessary cycles\n", "        index = index if abs(index) < 2 * len(self.seq) else index % len(self.seq)\n")
 m("c14-reverse-complement-returns-plain-record", ["C14"], REC,
